@@ -36,6 +36,8 @@ def lists():
     L["M2"] = L["M1"] + [m("ca", sigma=0.5)]                            # grown list, new clique (cycle)
     L["M3"] = [m("a", sigma=0.5)]                                       # fewer attributes covered
     L["M4"] = [(sparse.csr_matrix(np.eye(n("ba"))), marg("ba") + 1.0, 1.0, ["b", "a"]), (None, marg("c"), 1.0, "c")]
+    L["M5"] = [(np.eye(n("ab"))[:2], marg("ab")[:2] + 0.5, 1.0, ("a", "b"))]     # no query spans the all-ones vector: total not estimable
+    L["M0"] = []                                                                   # nothing measured at all
     return L
 
 
